@@ -202,7 +202,7 @@ def class_rules(run, repo, max_len):
             ev[q] = I.call_method(o, 'get_' + q, [], {'T': T, 'P': P})
             m, f = fn_of(repo, NASA, 'get_nasa_' + q)
             bare = I.call_function(m, f, [], {'a': a, 'T': T})
-            mixq = SumV(C(0), I.D.sym('MIX<get_%s|P=%r,T=%r>' % (q, P.key(), T.key())))
+            mixq = SumV(C(0), I.D.sym('MIX<get_%s|P=%r,T=%r>' % (q, P, T)))
             want = I.binop('+', bare, mixq)
             owner, fn = repo.find_method(o.ci, 'get_' + q)
             run.fn(owner.qual + '.get_' + q)
@@ -233,7 +233,7 @@ def class_rules(run, repo, max_len):
                 got = I.call_method(o, 'get_' + q, [], {'T': T, 'P': P})
                 m, f = fn_of(repo, NASA, 'get_nasa9_' + q)
                 bare = I.call_function(m, f, [], {'a': segs[j].attrs['a'], 'T': T})
-                mixq = SumV(C(0), I.D.sym('MIX<get_%s|P=%r,T=%r>' % (q, P.key(), T.key())))
+                mixq = SumV(C(0), I.D.sym('MIX<get_%s|P=%r,T=%r>' % (q, P, T)))
                 want = I.binop('+', bare, mixq)
                 owner, fn = repo.find_method(o.ci, 'get_' + q)
                 run.fn(owner.qual + '.get_' + q)
